@@ -279,6 +279,14 @@ def run_mask(case, ctx, g):
         I = torch.tensor(list(itertools.product(*[range(n) for n in N])), dtype=torch.int64).reshape(-1, d)
     else:
         I = torch.stack([torch.randint(0, n, (case['Mrows'],), generator=g) for n in N], dim=1)
+    if not case['exhaustive'] and case['seed'] % 3 != 0 and I.shape[0] > 1:
+        # python-style negative entries (accepted like in torch indexing) and repeated rows
+        neg = torch.rand(I.shape, generator=g) < 0.3
+        I = torch.where(neg, I - torch.tensor(N, dtype=I.dtype), I)
+        if case['seed'] % 3 == 2:
+            I = torch.cat([I, I[:max(1, I.shape[0] // 2)]], dim=0)
+            I = I[torch.randperm(I.shape[0], generator=g)]
+        ctx.count('apply_mask/negative-entries-or-repeated-rows')
     Mrows = I.shape[0]
     ctx.count('apply_mask/M=1' if Mrows == 1 else 'apply_mask/M>1')
     key = 'apply_mask/%s' % ('M=1' if Mrows == 1 else 'M>1')
